@@ -366,6 +366,8 @@ func endToEnd(meta *common.Meta, tier string, rng interface{ Intn(int) int }, ou
 		{"gen.go", "// Code generated by tool. DO NOT EDIT.\n\n" + warnSrc("p", "Gen")},
 		{"gen_test.go", "// Code generated by tool. DO NOT EDIT.\n\n" + warnSrc("p", "GenTest")},
 		{"clean.go", "package p\n\nfunc Clean() int { return 1 }\n"},
+		// a diagnostic whose text quotes several lines of code (newlines, tabs, runs of blanks inside a string)
+		{"ml.go", "package p\n\nfunc run(f func() error) error { return f() }\n\nfunc ML(n int) error {\n\tvar err error\n\terr = run(func() error {\n\t\tif n > 0 {\n\t\t\tprintln(\"a   b\")\n\t\t\treturn nil\n\t\t}\n\t\treturn nil\n\t})\n\treturn err\n}\n"},
 		{"sub/b.go", warnSrc("sub", "B")},
 		// the last package (by import path) and its last file are clean: the exit status must not depend on
 		// which file happens to be checked last
@@ -398,10 +400,14 @@ func endToEnd(meta *common.Meta, tier string, rng interface{ Intn(int) int }, ou
 	common.Must(os.MkdirAll(nestedCwd, 0o755))
 	common.Must(os.MkdirAll(filepath.Join(base, "gp-unrelated"), 0o755))
 	layouts = append(layouts, layout{"cwd-path-inside-file-path", "", nestedCwd, filepath.Join(base, "gp-unrelated"), []string{nestedFile}})
+	// path components that look like formatting verbs
+	pctFile := filepath.Join(base, "my%20project", "100%", "%s%d", "p.go")
+	common.WriteFile(pctFile, warnSrc("main", "P")+"\nfunc main() {}\n")
+	layouts = append(layouts, layout{"percent-signs-in-path", "", nestedCwd, filepath.Join(base, "gp-unrelated"), []string{pctFile}})
 
 	env0 := append(common.GoEnv(), "GOPATH="+filepath.Join(base, "gp-unrelated"), "GOFLAGS=-mod=mod")
-	enable := "sloppyLen,emptyStringTest,unlambda"
-	enabledSet := map[string]bool{"sloppyLen": true, "emptyStringTest": true, "unlambda": true}
+	enable := "sloppyLen,emptyStringTest,unlambda,sloppyReassign"
+	enabledSet := map[string]bool{"sloppyLen": true, "emptyStringTest": true, "unlambda": true, "sloppyReassign": true}
 	type flagset struct {
 		checkTests, checkGen, shorter bool
 		exitCode                      int
@@ -485,8 +491,28 @@ func endToEnd(meta *common.Meta, tier string, rng interface{ Intn(int) int }, ou
 					gr = goroot() + "/"
 				}
 				seenFiles := map[string]bool{}
+				// lines 2.. of multi-line messages, and every message printed verbatim
+				continuation := map[string]bool{}
+				for _, fw := range fws {
+					bn := filepath.Base(fw.full)
+					skip := (!fs.checkTests && strings.HasSuffix(bn, "_test.go")) || (!fs.checkGen && strings.HasPrefix(bn, "gen"))
+					for cn, ws := range fw.byC {
+						for _, w := range ws {
+							parts := strings.Split(w[1], "\n")
+							for _, pl := range parts[1:] {
+								continuation[pl] = true
+							}
+							if !skip && !strings.Contains(stderr, ": "+cn+": "+w[1]+"\n") {
+								meta.Fail("C16/"+exe+"/e2e-message-altered", fmt.Sprintf("the message of %s at %s is not printed verbatim: want %q", cn, w[0], w[1]), map[string]interface{}{"layout": lay.name, "args": args, "stderr": stderr})
+							}
+						}
+					}
+				}
 				for _, l := range got {
 					m := diagLineRE.FindStringSubmatch(l)
+					if m == nil && continuation[l] {
+						continue
+					}
 					if m == nil {
 						meta.Fail("C16/"+exe+"/e2e-line-format", "output line is not 'location: checker: message': "+l, args)
 						continue
@@ -539,7 +565,7 @@ func endToEnd(meta *common.Meta, tier string, rng interface{ Intn(int) int }, ou
 				}
 				// duplicates
 				for i := 1; i < len(got); i++ {
-					if got[i] == got[i-1] {
+					if got[i] == got[i-1] && !continuation[got[i]] {
 						meta.Fail("C16/"+exe+"/e2e-duplicate-line", "diagnostic printed twice: "+got[i], args)
 					}
 				}
@@ -576,12 +602,15 @@ Record ecase := { e_cfg : cli_cfg; e_shorter : bool; e_wd : string; e_gp : strin
 Fixpoint ins (x : string) (l : list string) : list string :=
   match l with [] => [x] | y :: r => if String.leb x y then x :: l else y :: ins x r end.
 Definition sort_s (l : list string) : list string := fold_right ins [] l.
+(* a message may span several physical lines; empty physical lines are not compared *)
+Definition phys_lines (l : list string) : list string :=
+  filter (fun x => negb (String.eqb x "")) (flat_map (split_on "010"%char) l).
 Definition shorten_file (k : ecase) (f : src_file) : src_file :=
   {| fname := fname f; fgroups := fgroups f;
      fwarn := map (fun cw => (fst cw, map (fun w => ((if e_shorter k then shorten (e_wd k) (e_gp k) (e_gr k) (fst w) else fst w), snd w)) (snd cw))) (fwarn f) |}.
 Definition case_ok (k : ecase) : bool :=
   let r := run (e_cfg k) (map (shorten_file k) (e_files k)) in
-  Z.eqb (fst r) (e_exit k) && list_eqb String.eqb (sort_s (snd r)) (sort_s (e_lines k)).
+  Z.eqb (fst r) (e_exit k) && list_eqb String.eqb (sort_s (phys_lines (snd r))) (sort_s (e_lines k)).
 Definition cases : list ecase := [
 `
 	common.WriteFile(filepath.Join(outDir, "cases_c16_e2e.v"), hdr+strings.Join(caseLines, ";\n")+"\n].\nDefinition M := Eval vm_compute in mismatches case_ok cases.\nPrint M.\n")
@@ -716,11 +745,13 @@ From GCgen Require Import Registry.
 Fixpoint ins (x : string) (l : list string) : list string :=
   match l with [] => [x] | y :: r => if String.leb x y then x :: l else y :: ins x r end.
 Definition sort_s (l : list string) : list string := fold_right ins [] l.
+Definition phys_lines (l : list string) : list string :=
+  filter (fun x => negb (String.eqb x "")) (flat_map (split_on "010"%char) l).
 Definition files : list sys_file := ` + coqfmt.List(fitems) + `.
 Definition out_eqb (a b : sys_outcome) : bool :=
   match a, b with
   | SysFatal x, SysFatal y => String.eqb x y
-  | SysExit c1 l1, SysExit c2 l2 => Z.eqb c1 c2 && list_eqb String.eqb (sort_s l1) (sort_s l2)
+  | SysExit c1 l1, SysExit c2 l2 => Z.eqb c1 c2 && list_eqb String.eqb (sort_s (phys_lines l1)) (sort_s l2)
   | _, _ => false
   end.
 Definition case_ok (k : cli_flags * cli_cfg * sys_outcome) : bool :=
@@ -779,11 +810,12 @@ From GCgen Require Import Registry.
 Fixpoint ins (x : string) (l : list string) : list string :=
   match l with [] => [x] | y :: r => if String.eqb x y then l else if String.leb x y then x :: l else y :: ins x r end.
 Definition sort_u (l : list string) : list string := fold_right ins [] l.
+Definition first_line (s : string) : string := match split_on "010"%char s with h :: _ => h | [] => s end.
 Definition files : list sys_file := ` + coqfmt.List(fitems) + `.
 Definition out_eqb (a b : an_outcome) : bool :=
   match a, b with
   | AnError, AnError => true
-  | AnExit c1 l1, AnExit c2 l2 => Z.eqb c1 c2 && list_eqb String.eqb (sort_u l1) (sort_u l2)
+  | AnExit c1 l1, AnExit c2 l2 => Z.eqb c1 c2 && list_eqb String.eqb (sort_u (map first_line l1)) (sort_u l2)
   | _, _ => false
   end.
 Definition case_ok (k : an_flags * an_outcome) : bool := out_eqb (analysis_run registry (fst k) files) (snd k).
